@@ -28,6 +28,7 @@ CONSTANTS
 
   Lrsn0,
   Recharges,   \* TRUE: recharge notifications
+  AddrKinds,   \* address members of the consumer identification in a create: subset of {"none","v4","v6","fqdn","all"}
   SinkAnswers, \* statuses the consumer's notification endpoint may answer a re-authorisation notification with
   Traffic,     \* numbers of unrelated one-time creates (they advance the global record counter)
   EmitOneIn    \* behaviour emission: print one transition in EmitOneIn (seeded by -seed)
@@ -113,7 +114,7 @@ StepSig(what, pre, post, u, usage, resp, trig) ==
 \* ---- steps ----
 DoCreate ==
   /\ Cardinality(Dom(labels)) < MaxSess
-  /\ \E u \in Subs, c \in Consumers, tpl \in CreateTemplates, pad \in Pads :
+  /\ \E u \in Subs, c \in Consumers, tpl \in CreateTemplates, pad \in Pads, addr \in AddrKinds :
        LET lab == "s" \o ToString(Cardinality(Dom(labels)) + 1)
            us  == Stamp(tpl, 1, nid)
            a   == [u |-> u, supi |-> Supi(u), sub |-> u, c |-> c, onetime |-> FALSE, usage |-> us,
@@ -126,8 +127,8 @@ DoCreate ==
           /\ labels' = Upd(labels, lab, [ref |-> r.resp.ref, u |-> u, live |-> TRUE])
           /\ nid' = nid + CountC(tpl, 1)
           /\ hist' = Append(hist, [a |-> "create", u |-> u, s |-> lab, c |-> c, usage |-> tpl,
-                                   pad |-> pad, chid |-> a.chid,
-                                   sig |-> StepSig("create", st, r.st, u, us, r.resp, <<>>)])
+                                   pad |-> pad, chid |-> a.chid, addr |-> addr,
+                                   sig |-> StepSig("create:" \o addr, st, r.st, u, us, r.resp, <<>>)])
 
 Targets == {[s |-> l, u |-> labels[l].u, ref |-> labels[l].ref] : l \in {x \in Dom(labels) : labels[x].live \/ BadRefs}}
            \cup (IF BadRefs THEN {[s |-> "none", u |-> u, ref |-> "no-such-ref"] : u \in Subs}
